@@ -916,7 +916,9 @@ def needs_root_task(task_registry: TaskRegistry, expr: Any) -> bool:
     default_kwargs = get_arg_defaults(task, expr.args, expr.kwargs)
     return any(
         isinstance(arg, Expression)
-        for arg in iter_nested_value((expr.args, expr.kwargs, default_kwargs))
+        for arg in iter_nested_value(
+            (expr.args, expr.kwargs, default_kwargs, task.get_task_options(), expr._options)
+        )
     )
 
 
